@@ -86,6 +86,9 @@ WLogic(x) == {NBin(op, x, y) : op \in LogicOps, y \in PBool \cup {NVar("zz")}}
 WCond(x)  == {NCond(x, a, b) : a \in {NVar("n1"), NVar("s"), NNull, NVar("t")}, b \in {NVar("n2"), NVar("sn"), NVar("l")}}
              \cup {NCond(c, x, b) : c \in {NVar("b"), NBool(FALSE), NVar("nul"), NVar("s")}, b \in {NVar("n1"), NVar("s"), NNull, NVar("zz"), NVar("t"), NVar("o")}}
              \cup {NCond(c, a, x) : c \in {NVar("b"), NBool(FALSE), NVar("sn")}, a \in {NVar("n1"), NVar("s"), NNull, NVar("zz"), NVar("l")}}
+             \* arms of the same shape whose NESTED types differ (the mismatch is described element by element)
+             \cup {NCond(NVar("b"), x, NTuple(<<NVar("o")>>)), NCond(NVar("b"), NTuple(<<NVar("o")>>), x),
+                   NCond(NVar("b"), x, NObject(<<NKeyId("a"), NVar("o")>>))}
 WParen(x) == {NParen(x)}
 WTuple(x) == {NTuple(<<x>>), NTuple(<<x, NVar("s")>>), NTuple(<<NVar("n1"), x>>), NTuple(<<>>)}
 WObject(x) ==
